@@ -142,7 +142,7 @@ pub const HOSTILE: [u8; 26] = [
 ];
 
 /// Tokens used for `TokenSubst` / `Insert`: every keyword and operator of the grammar plus boundary literals.
-pub const DICT: [&str; 108] = [
+pub const DICT: [&str; 118] = [
     "void", "char", "short", "int", "signed", "unsigned", "const", "inline", "interrupt", "bank1", "bank9", "superchip",
     "ramchip", "display", "aligned(256)", "reversed", "scattered(16,1)", "holeydma", "screencode", "nopagecross",
     "if", "else", "for", "while", "do", "switch", "case", "default", "break", "continue", "return", "goto", "asm",
@@ -155,6 +155,9 @@ pub const DICT: [&str; 108] = [
     "undeclared_fn()", "main()", "X = main();", ", 0", "[0]", "[Y]", "void proto_only();", "proto_only();", "if (X)",
     // large but representable sizes / values
     "2000000000", "0x7fffffff", "-2147483648", "1000000",
+    // hostile literals: escapes without digits / out of range, empty and multi-character constants, a forged
+    // string-literal marker, an over-long bank number
+    "\"\\x\"", "\"\\x100\"", "\"\\q\\\"", "'\\x'", "'ab'", "\"\\\\\"", "@5@", "@99999999999@", "bank99999999999", "bank0",
 ];
 
 #[derive(Clone, Copy, Debug, PartialEq, Eq)]
